@@ -2,12 +2,14 @@
 // same line protocol the Lean model driver (`modeld`) speaks.
 mod common;
 mod asm;
+mod atomic;
 mod base;
 mod compile;
 mod cerr;
 mod cldb;
 mod cldbsrc;
 mod conv;
+mod deps;
 mod reader;
 mod repl;
 mod rich;
@@ -28,6 +30,10 @@ fn main() {
         "base" => base::run(&rest),
         "compile" => compile::run(&rest),
         "conv" => conv::run(&rest),
+        "atomic" => atomic::run(&rest),
+        "atomic-child" => atomic::child(&rest),
+        "deps" => deps::run(&rest),
+        "deps-probe" => deps::probe(&rest),
         "step" => step::run(&rest),
         "cldb" => cldb::run(&rest),
         "cldb-compile" => cldbsrc::run(&rest),
